@@ -3,6 +3,7 @@ C18 — failures of the underlying reader or writer are always surfaced to the c
 -/
 import Astits.Model.Demux
 import Astits.Generated.Facts
+import Astits.Proofs.WriterFault
 namespace Astits.C18
 
 /-- a reader fault hit while a packet is being read makes `next` return an error wrapping the cause — never end of
@@ -43,5 +44,192 @@ theorem batch_errors_returned :
 
 def exDemux : Demux := { r := { data := [0x47, 1, 2, 3, 4, 5], faultAt := some 3 }, packetSize := some 4 }
 example : exDemux.r.faultActive = some 3 ∧ exDemux.r.pos ≤ 3 ∧ 3 < exDemux.r.pos + 4 ∧ 3 ≤ exDemux.r.data.length := by decide
+
+/-! ## Writer side — a failing `io.Writer` under `WriteTables` / `WriteData` / `WritePacket`
+
+Layer and generic theorems: `Astits/Proofs/WriterFault.lean`.  The layer (the sequence of `Write` calls a call issues
+for the chunks of the muxer model, their grouping by error check, the harness's `recWriter`) is a TRANSCRIPTION of the
+Go control flow, validated by the C18 correspondence run (`writer-fault-*`, `writer-nofault-*`: fault armed at the
+k-th `Write` of the last call, both modes; `err` class and `n ≤ accepted` compared with the Go harness) — like the
+reader layer of `Astits/Proofs/Chunking/*`.  The number of calls per packet is the driver's `writeCallsOfPacket`.
+
+What is proved, for EVERY muxer state, every argument, every writer state, every failure index `k` inside the call
+and BOTH modes (`w.once` arbitrary): the call returns the injected error class `.io`, does not panic, its count is the
+bytes of the groups completed before (`creditedAt`) and is not larger than what the writer accepted; the accepted
+bytes are exactly the first `k` `Write`s — a prefix of the fault-free output; a permanently failing writer accepts
+nothing afterwards.  For `k` beyond the call's `Write`s (or no fault / a spent one-shot fault) the call ends as in the
+fault-free model and the writer has accepted all its chunks.
+
+Scope: the run is modelled up to the first failing `Write`; the state of the MUXER after a failed call is not
+modelled; for a call whose fault-free run PANICS (nil `PCR` / extension behind a set flag) the model lists no chunks
+for the packet being written, so the `Write`s Go issues for it before the panic are outside this layer.  Two observations on the Go code in ONE-SHOT mode (probed with the harness's `recWriter`, fault armed inside
+`WritePacket`; neither is visible to the correspondence run, which looks at `err` and `n ≤ accepted` of the failing
+call only):
+
+ W1. bytes BEHIND the failing `Write` can still be accepted in the same call: `writePacketAdaptationField` latches the
+     error in ITS batch, but `writePCR`, the OPCR, the adaptation extension and its DTS use batches of their own on the
+     same writer.  Fault on the adaptation-field length byte of a packet with a PCR, once: the writer ends up with
+     `47 01 00 33 | 91 a2 b3 c4 fe 05` (length and flags bytes missing, PCR present), `n = 4`, `err ≠ nil`.  So with a
+     one-shot writer the accepted bytes are NOT a prefix of the fault-free output; `n ≤ accepted` still holds (only more
+     is accepted).  With a permanently failing writer they are (`Surfaced.stuck`).
+ W2. a one-shot failure on a byte that is completed by BIT writes (first and third header byte, adaptation-field flags,
+     …) leaves astikit's `BitsWriter` with `cacheLen = 8` (`writeBitsN` / `writeBit` return the error before resetting
+     the cache), and the muxer keeps using that `BitsWriter` for every later call.  Observed: `WriteData` with the fault
+     on the first header byte of its first PES packet returns `376, err` (correct); EVERY following `WriteData` call
+     then returns `188, nil` while the writer accepts 184 bytes (`41 47 00 00 00 …`, then all zero): a count larger than
+     what the writer accepted and bytes silently dropped, in all calls AFTER the one that reported the error.  A fault
+     on a byte written whole (second header byte, adaptation-field length, payload) leaves no such trace. -/
+
+section WriterSide
+open Astits.WriterFault
+
+/-- the outcome of a call during which the writer failed at the call's `Write` number `k` -/
+structure Surfaced (o : MuxOut) (prog : Program) (w : FWriter) (k : Nat) (r : FaultOut) : Prop where
+  /-- a non-nil error wrapping the writer's -/
+  err : r.err = some .io
+  no_panic : r.panic = false
+  /-- the count returned: the bytes of the groups (tables / packets / parts of the packet) completed before -/
+  n_eq : r.n = (creditedAt prog k : Nat)
+  /-- … which is not larger than what the writer accepted during the call -/
+  n_le : r.n ≤ ((r.w.buf.length - w.buf.length : Nat) : Int)
+  /-- the writer accepted exactly the first `k` `Write`s of the call -/
+  accepted : r.w.buf = w.buf ++ ((callsOf prog).take k).flatten
+  /-- … a prefix of what the fault-free call hands to the writer: nothing is dropped in front of the failure -/
+  is_prefix : ((callsOf prog).take k).flatten <+: o.chunks.flatten
+  calls : r.w.calls = w.calls + k + 1
+  done : r.w.done = w.once
+  /-- a permanently failing writer accepts nothing any more -/
+  stuck : w.once = false → r.w.stuck
+
+/-- the outcome of a call the fault does not reach -/
+structure Unaffected (o : MuxOut) (prog : Program) (w : FWriter) (r : FaultOut) : Prop where
+  n : r.n = o.n
+  err : r.err = o.err
+  panic : r.panic = o.panic
+  accepted : r.w.buf = w.buf ++ o.chunks.flatten
+  calls : r.w.calls = w.calls + totalCalls prog
+
+theorem surfaced_of (o : MuxOut) (prog : Program) (w : FWriter) (k : Nat) (hb : bytesOf prog = o.chunks.flatten)
+    (hf : w.failAt = some (w.calls + k)) (hd : w.done = false) (hk : k < totalCalls prog) :
+    Surfaced o prog w k (underFault o prog w) := by
+  obtain ⟨h1, h2, h3, h4, h5, h6, h7, h8, h9⟩ := underFault_hit o prog w k hb hf hd hk
+  exact ⟨h1, h2, h3, h4, h5, h6, h7, h8, h9⟩
+
+theorem unaffected_of (o : MuxOut) (prog : Program) (w : FWriter) (hb : bytesOf prog = o.chunks.flatten)
+    (hs : w.safeFor (totalCalls prog)) : Unaffected o prog w (underFault o prog w) := by
+  obtain ⟨h1, h2, h3, h4, h5⟩ := underFault_safe o prog w hb hs
+  exact ⟨h1, h2, h3, h4, h5⟩
+
+/-- **`WriteData`, writer failing inside the call** (at any of its `Write`s: a table, or any byte group of any packet),
+once or permanently -/
+theorem writeData_writer_fault (m : Mux) (d : MuxerData) (w : FWriter) (k : Nat)
+    (hf : w.failAt = some (w.calls + k)) (hd : w.done = false) (hk : k < totalCalls (m.dataProg d)) :
+    Surfaced (m.writeData d).1 (m.dataProg d) w k (m.writeDataF d w) :=
+  surfaced_of _ _ w k (dataProgram_bytes _ _) hf hd hk
+
+/-- **`WriteData`, fault beyond the call** -/
+theorem writeData_writer_nofault (m : Mux) (d : MuxerData) (w : FWriter) (k : Nat)
+    (hf : w.failAt = some (w.calls + k)) (hk : totalCalls (m.dataProg d) ≤ k) :
+    Unaffected (m.writeData d).1 (m.dataProg d) w (m.writeDataF d w) :=
+  unaffected_of _ _ w (dataProgram_bytes _ _) (safeFor_of_beyond w _ k hf hk)
+
+/-- `WriteData` on a healthy writer -/
+theorem writeData_writer_healthy (m : Mux) (d : MuxerData) (w : FWriter) (hf : w.failAt = none) :
+    Unaffected (m.writeData d).1 (m.dataProg d) w (m.writeDataF d w) :=
+  unaffected_of _ _ w (dataProgram_bytes _ _) (safeFor_of_none w _ hf)
+
+/-- **`WriteTables`, writer failing on the PAT or on the PMT** -/
+theorem writeTables_writer_fault (m : Mux) (w : FWriter) (k : Nat)
+    (hf : w.failAt = some (w.calls + k)) (hd : w.done = false) (hk : k < totalCalls m.tablesProg) :
+    Surfaced m.writeTablesCall.1 m.tablesProg w k (m.writeTablesF w) :=
+  surfaced_of _ _ w k (tablesProgram_bytes _) hf hd hk
+
+theorem writeTables_writer_nofault (m : Mux) (w : FWriter) (k : Nat)
+    (hf : w.failAt = some (w.calls + k)) (hk : totalCalls m.tablesProg ≤ k) :
+    Unaffected m.writeTablesCall.1 m.tablesProg w (m.writeTablesF w) :=
+  unaffected_of _ _ w (tablesProgram_bytes _) (safeFor_of_beyond w _ k hf hk)
+
+/-- a table is one `Write`: a failure on the PAT returns 0, a failure on the PMT returns the 188 bytes of the PAT -/
+theorem writeTables_calls (m : Mux) : totalCalls m.tablesProg = m.writeTablesCall.1.chunks.length :=
+  tablesProgram_calls _
+
+/-- **`WritePacket`, writer failing on any of its `Write`s** (sync byte, a header byte, a byte of the adaptation field,
+the private data, the payload, a trailing stuffing byte) -/
+theorem writePacket_writer_fault (m : Mux) (p : Packet) (w : FWriter) (k : Nat)
+    (hf : w.failAt = some (w.calls + k)) (hd : w.done = false) (hk : k < totalCalls (m.packetProg p)) :
+    Surfaced (m.writePacketCall p).1 (m.packetProg p) w k (m.writePacketF p w) :=
+  surfaced_of _ _ w k (packetProgram_bytes _ _) hf hd hk
+
+theorem writePacket_writer_nofault (m : Mux) (p : Packet) (w : FWriter) (k : Nat)
+    (hf : w.failAt = some (w.calls + k)) (hk : totalCalls (m.packetProg p) ≤ k) :
+    Unaffected (m.writePacketCall p).1 (m.packetProg p) w (m.writePacketF p w) :=
+  unaffected_of _ _ w (packetProgram_bytes _ _) (safeFor_of_beyond w _ k hf hk)
+
+/-- the "once" mode after its failure: the next `Write` is accepted again (this is what W1 / W2 above are about) -/
+theorem once_recovers (w : FWriter) (hd : w.done = true) (p : Bytes) : (w.write p).1 = true := by
+  unfold FWriter.write FWriter.fails
+  cases w.failAt <;> simp [hd]
+
+/-! ### non-vacuity and evaluations -/
+
+/-- a muxer with one video stream that is the PCR PID; tables are due -/
+def exMux : Mux := ((newMux 40).addElementaryStream { elementaryPID := 0x100, streamType := 0x1b }).2.setPCRPID 0x100
+
+/-- 300 bytes with a PCR and three bytes of private data in the adaptation field -/
+def exData : MuxerData :=
+  { pid := 0x100,
+    adaptationField := some { hasPCR := true, pcr := some ⟨1234567, 5⟩, randomAccessIndicator := true,
+                              hasTransportPrivateData := true, transportPrivateData := [1, 2, 3], transportPrivateDataLength := 3 },
+    pes := { data := List.replicate 300 0xAB, header := { streamID := 0xe0, optionalHeader := some {} } } }
+
+/-- a packet with a PCR, a splice countdown and four bytes of payload (171 trailing stuffing bytes) -/
+def exPacket : Packet :=
+  { header := { continuityCounter := 3, hasAdaptationField := true, hasPayload := true, payloadUnitStartIndicator := false,
+                pid := 0x100, transportErrorIndicator := false, transportPriority := false, transportScramblingControl := 0 },
+    adaptationField := some { hasPCR := true, pcr := some ⟨0x123456789, 5⟩, hasSplicingCountdown := true, spliceCountdown := 9 },
+    payload := [1, 2, 3, 4] }
+
+/-- the writer after 7 earlier calls, armed at its call 7 + k -/
+def exWriter (k : Nat) (once : Bool) : FWriter := { buf := [9, 9], calls := 7, failAt := some (7 + k), once := once }
+
+/-- `WriteData exData`: PAT, PMT and two packets: 2 + 15 + 52 `Write`s (the driver's `writeCallsOf` gives 69 too) -/
+example : (exMux.writeData exData).1.chunks.map List.length = [188, 188, 188, 188] ∧ (exMux.writeData exData).1.n = 752 ∧
+    (exMux.dataProg exData).map List.length = [1, 1, 15, 52] ∧ totalCalls (exMux.dataProg exData) = 69 := by decide +kernel
+
+/-- the hypotheses of `writeData_writer_fault` hold for every `k < 69`, e.g. `k = 30` in the second packet -/
+example : Surfaced (exMux.writeData exData).1 (exMux.dataProg exData) (exWriter 30 true) 30 (exMux.writeDataF exData (exWriter 30 true)) :=
+  writeData_writer_fault exMux exData (exWriter 30 true) 30 rfl rfl (by decide +kernel)
+
+/-- … and the result: the error, `n` = PAT + PMT + first packet = 564, the writer has accepted 577 bytes -/
+example : (exMux.writeDataF exData (exWriter 30 true)).n = 564 ∧ (exMux.writeDataF exData (exWriter 30 true)).err = some .io ∧
+    (exMux.writeDataF exData (exWriter 30 true)).w.buf.length = 2 + 577 := by decide +kernel
+
+/-- a failure on the PMT `Write`: `n` = the 188 bytes of the PAT; on the PAT: 0 -/
+example : (exMux.writeDataF exData (exWriter 1 false)).n = 188 ∧ (exMux.writeDataF exData (exWriter 0 false)).n = 0 ∧
+    (exMux.writeTablesF (exWriter 1 false)).n = 188 ∧ (exMux.writeTablesF (exWriter 1 false)).err = some .io ∧
+    (exMux.writeTablesF (exWriter 2 false)).err = none ∧ (exMux.writeTablesF (exWriter 2 false)).n = 376 := by decide +kernel
+
+/-- `WritePacket exPacket`: groups of 1, 3, 9, 1 calls and 171 single stuffing bytes: 185 `Write`s (as counted on the Go
+code); the values observed there for a fault at call 4 (adaptation-field length byte), 5 (flags byte) and 1 (first
+header byte): `n = 4, 4, 1`, accepted `47010033`, `4701003308`, `47` -/
+example : totalCalls (exMux.packetProg exPacket) = 185 ∧ ((exMux.packetProg exPacket).map List.length).take 5 = [1, 3, 9, 1, 1] ∧
+    (exMux.writePacketF exPacket { failAt := some 4, once := true }).n = 4 ∧
+    (exMux.writePacketF exPacket { failAt := some 4, once := true }).w.buf = [0x47, 0x01, 0x00, 0x33] ∧
+    (exMux.writePacketF exPacket { failAt := some 5 }).n = 4 ∧
+    (exMux.writePacketF exPacket { failAt := some 5 }).w.buf = [0x47, 0x01, 0x00, 0x33, 0x08] ∧
+    (exMux.writePacketF exPacket { failAt := some 1 }).n = 1 ∧
+    (exMux.writePacketF exPacket { failAt := some 1 }).w.buf = [0x47] ∧
+    (exMux.writePacketF exPacket { failAt := some 185 }).err = none ∧
+    (exMux.writePacketF exPacket { failAt := some 185 }).n = 188 := by decide +kernel
+
+example : Surfaced (exMux.writePacketCall exPacket).1 (exMux.packetProg exPacket) (exWriter 14 false) 14
+    (exMux.writePacketF exPacket (exWriter 14 false)) :=
+  writePacket_writer_fault exMux exPacket (exWriter 14 false) 14 rfl rfl (by decide +kernel)
+
+example : Unaffected (exMux.writePacketCall exPacket).1 (exMux.packetProg exPacket) (exWriter 190 true)
+    (exMux.writePacketF exPacket (exWriter 190 true)) :=
+  writePacket_writer_nofault exMux exPacket (exWriter 190 true) 190 rfl (by decide +kernel)
+
+end WriterSide
 
 end Astits.C18
